@@ -91,6 +91,7 @@ fn exec(t: &[&str]) -> String {
         "F8x3" => lhs!(Bvf<u8, 3>, rtag, is_uint),
         "F32x1" => lhs!(Bvf<u32, 1>, rtag, is_uint),
         "F64x2" => lhs!(Bvf<u64, 2>, rtag, is_uint),
+        "F64x5" => lhs!(Bvf<u64, 5>, rtag, is_uint),
         "F128x2" => lhs!(Bvf<u128, 2>, rtag, is_uint),
         "D" => lhs!(Bvd, rtag, is_uint),
         "A" => lhs!(Bv, rtag, is_uint),
@@ -99,7 +100,7 @@ fn exec(t: &[&str]) -> String {
     f(op, a)
 }
 
-const LHS: [&str; 6] = ["F8x3", "F32x1", "F64x2", "F128x2", "D", "A"];
+const LHS: [&str; 7] = ["F8x3", "F32x1", "F64x2", "F64x5", "F128x2", "D", "A"];
 const RHS: [&str; 7] = ["F8x3", "F16x2", "F32x1", "F64x2", "F128x2", "D", "A"];
 const FORMS: [&str; 6] = ["vv", "vr", "rv", "rr", "av", "ar"];
 const OPS: [&str; 8] = ["add", "sub", "mul", "div", "rem", "and", "or", "xor"];
@@ -113,8 +114,18 @@ fn generate(fam: &str, seed: u64, tier: &str, emit: Emit) {
         let lty = ty_of(lt);
         for rt in RHS {
             let rty = ty_of(rt);
-            for _ in 0..reps {
-                let l = gen_vec(rng, &lty, 200);
+            for rep in 0..(reps + 4) {
+                // the last four repetitions use carry / borrow patterns: zeros, ones, one bit on a word boundary, low word only
+                let l = if rep < reps { gen_vec(rng, &lty, 200) } else {
+                    let len = lty.cap().unwrap_or(64 * (2 + rng.below(4))).min(320);
+                    let bits: Vec<bool> = match rep - reps {
+                        0 => vec![false; len],
+                        1 => vec![true; len],
+                        2 => { let k = (64 * rng.below(len / 64 + 1)).min(len - 1); (0..len).map(|i| i == k).collect() }
+                        _ => (0..len).map(|i| i < 8 && rng.chance(1, 2)).collect(),
+                    };
+                    vec_token(&lty, &bits, rng.below(2), rng.chance(1, 3))
+                };
                 let rl = gen_len(rng, &rty, 200).min(200);
                 let mut rb = gen_bits(rng, rl);
                 if rl > 0 && rb.iter().all(|x| !x) && rng.chance(3, 4) {
@@ -149,9 +160,17 @@ fn generate(fam: &str, seed: u64, tier: &str, emit: Emit) {
                 }
             }
         }
-        for _ in 0..(reps * 3) {
-            let l = gen_vec(rng, &lty, 200);
-            let r = gen_uint(rng);
+        for rep in 0..(reps * 3 + 6) {
+            let l = if rep < reps * 3 { gen_vec(rng, &lty, 200) } else {
+                let len = lty.cap().unwrap_or(64 * (2 + rng.below(4))).min(320);
+                let bits: Vec<bool> = match (rep - reps * 3) % 3 {
+                    0 => vec![false; len],
+                    1 => vec![true; len],
+                    _ => { let k = (64 * rng.below(len / 64 + 1)).min(len - 1); (0..len).map(|i| i == k).collect() }
+                };
+                vec_token(&lty, &bits, rng.below(2), rng.chance(1, 3))
+            };
+            let r = if rep < reps * 3 { gen_uint(rng) } else { ["u8:1", "u64:1", "u128:1", "u16:ffff", "u64:ffffffffffffffff", "u32:2"][rng.below(6)].to_string() };
             let (w, x) = parse_uint(&r);
             let wb = if w == 65 { 64 } else { w };
             // the same integer as a vector built from it
